@@ -83,12 +83,40 @@ def all_objects(ns, live, model):
 
 
 def round_trip(ns, tid, seq, live, model, with_calc, rng, flavour, cls):
-    system = live[efx.system_name(model)]
-    objs = all_objects(ns, live, model)
+    return round_trip_objs(ns, tid, seq, live[efx.system_name(model)], all_objects(ns, live, model), with_calc, flavour, cls)
+
+
+def builder_system(ns):
+    """one system using every builder class: video streaming, web application, generative AI on a GPU server, a Boavizta
+    cloud server, next to a plain job"""
+    from . import c17
+    c = ns.classes
+    srv = c17.plain_server(ns)
+    vs = c["VideoStreaming"].from_defaults("streaming", server=srv)
+    wa = c["WebApplication"].from_defaults("web app", server=srv)
+    gpu = c["GPUServer"].from_defaults("gpu server", storage=c["Storage"].from_defaults("gpu storage"), compute=c17.sv(ns, 64, "gpu"))
+    ga = c["GenAIModel"].from_defaults("genai", server=gpu)
+    cloud = c["BoaviztaCloudServer"].from_defaults("cloud server", storage=c["Storage"].from_defaults("cloud storage"))
+    jobs = [c["VideoStreamingJob"].from_defaults("video job", service=vs), c["WebApplicationJob"].from_defaults("web job", service=wa),
+            c["GenAIJob"].from_defaults("genai job", service=ga), c["Job"].from_defaults("plain job", server=srv),
+            c["Job"].from_defaults("cloud job", server=cloud)]
+    system = c17.usage(ns, jobs)
+    objs = {o.name: o for o in system.all_linked_objects}
+    objs = {n: (o._value if type(o).__name__ == "ContextualModelingObjectAttribute" else o) for n, o in objs.items()}
+    objs[system.name] = system
+    return system, objs
+
+
+def round_trip_objs(ns, tid, seq, system, objs, with_calc, flavour, cls):
     ev = {"tid": tid, "seq": seq, "ev": "RoundTrip", "flavour": flavour, "with_calc": with_calc, "load_error": "none",
           "second_export_equal": True, "export_diff": [], "edited": False}
     ev["orig"] = state(ns, objs, cls)
-    js = json.loads(json.dumps(ns.system_to_json(system, save_calculated_attributes=with_calc)))
+    try:
+        js = json.loads(json.dumps(ns.system_to_json(system, save_calculated_attributes=with_calc)))
+    except Exception as ex:   # noqa: a system that cannot be saved is a lost round trip, not a harness problem
+        ev["load_error"] = f"export raised {type(ex).__name__}: {str(ex)[:150]}"
+        ev["loaded"] = ev["orig"]
+        return ev, None
     try:
         _cls_dict, flat = ns.json_to_system(copy.deepcopy(js))
     except Exception as ex:   # noqa
@@ -98,7 +126,13 @@ def round_trip(ns, tid, seq, live, model, with_calc, rng, flavour, cls):
     loaded = by_name(flat)
     ev["loaded"] = state(ns, loaded, cls)
     lsys = next(o for o in loaded.values() if type(o).__name__ == "System")
-    js2 = json.loads(json.dumps(ns.system_to_json(lsys, save_calculated_attributes=with_calc)))
+    try:
+        js2 = json.loads(json.dumps(ns.system_to_json(lsys, save_calculated_attributes=with_calc)))
+    except Exception as ex:   # noqa
+        ev["second_export_equal"] = False
+        ev["export_diff"] = [f"second export raised {type(ex).__name__}: {str(ex)[:150]}"]
+        ev["export_diff_only_never_computed_network"] = False
+        return ev, loaded
     diffs = []
     global SAVED_IDS
     SAVED_IDS = {oid for k, d in js.items() if isinstance(d, dict) for oid in d}
@@ -218,6 +252,19 @@ def run(tier, out):
                     ev["loaded_after_edit"] = state(ns, all_objects(ns, lmap, cur), cls)
                     break
             events.append(ev)
+        # builder classes (services, GPU server, cloud server), built here rather than read from a file
+        for with_calc in (False, True):
+            tid += 1
+            flavour = "builders" + ("/with-calculated" if with_calc else "/inputs-only")
+            try:
+                system, objs = builder_system(ns)
+            except Exception as ex:   # noqa
+                raise MachineryError(f"the builder scenario cannot be built: {ex!r}")
+            ev, _loaded = round_trip_objs(ns, tid, 0, system, objs, with_calc, flavour, Classes())
+            ev["seed"] = -1
+            flavours[flavour] = flavours.get(flavour, 0) + 1
+            out.nontrivial.add((flavour,))
+            events.append(ev)
         # files shipped with the repository, and the same file written as the previous major version
         jdir = os.path.join(REPO, "tests", "integration_tests")
         for fn in sorted(f for f in os.listdir(jdir) if f.endswith(".json")):
@@ -266,7 +313,7 @@ def run(tier, out):
                           "with_edit_after_load": sum(1 for e in events if e.get("edited"))})
         out.assumptions += ["in exported graphs the lists of ancestor / child identifiers are compared as sets",
                             "objects are matched by name (the drivers give unique names); ids are compared as part of the state",
-                            "builder classes are covered through the shipped system_with_services.json"]
+                            "builder classes are covered by one scenario using each of them once (default parameters) and by the shipped system_with_services.json"]
     finally:
         cleanup(wd)
 
